@@ -1,6 +1,9 @@
 import OmplModel.Model.Control
 import OmplModel.Model.CRRT
 import OmplModel.Model.CSST
+import OmplModel.Model.CEST
+import OmplModel.Model.CKPIECE
+import OmplModel.Model.Rng
 import OmplModel.Model.ControlExtra
 import OmplModel.Model.ControlSys
 import OmplModel.Driver.Common
@@ -414,6 +417,175 @@ def opSstPlay : P String := do
     s!" [{showReals w.state} ; " ++ (match w.rep with | none => "-" | some rp => pos rp) ++ "]")
   pure (hd ++ pth ++ " | " ++ tree ++ " | " ++ wits)
 
+/-! ### control EST on recorded draws (the planner's own RNG is the bit-exact `Model/Rng.lean`) -/
+
+partial def pEstDraws (acc : Array (CEST.Draw (Array F) (Array F))) (nreals : Nat) :
+    P (Array (CEST.Draw (Array F) (Array F))) := do
+  match (← get) with
+  | [] => pure acc
+  | _ =>
+    let t ← tok
+    let near ←
+      if t == "G" || t == "X" then pure (none : Option (Array F))
+      else if t == "N" then do
+        let r ← pReals nreals
+        pure (some r)
+      else failure
+    let (cs, ks) ← pEvs #[] #[]
+    guardP (cs.size == ks.size && cs.size ≤ 50 && ks.all (· ≤ 100000))
+    pEstDraws (acc.push { near, ctl := cs.toList.zip ks.toList }) nreals
+
+def pGoalKind : P GoalKind := do
+  match (← tok) with
+  | "pos" => pure GoalKind.pos
+  | "pred" => pure GoalKind.pred
+  | "l1" => pure GoalKind.l1
+  | _ => failure
+
+/-- lexicographic order on grid coordinates (the harness prints cells from a `std::map<pair<int,int>, …>`) -/
+def coordLe : List Int → List Int → Bool
+  | [], _ => true
+  | _ :: _, [] => false
+  | a :: as, b :: bs => if a < b then true else if b < a then false else coordLe as bs
+
+def showCoord (c : List Int) : String := joinSp (c.map toString)
+
+def solHead (c : Cfg F) (status : Status) (dif : F) (path : Option (Path (Array F) (Array F)))
+    (goalT : Array F → Bool × F) (step : Array F → Array F → Array F) (valid : Array F → Bool) : String :=
+  let has := path.isSome
+  let hd := s!"status={statusName status} has={if has then 1 else 0} approx={if status == .approximate then 1 else 0}" ++
+    s!" dif={floatBits (if !has then -1.0 else if status == .approximate then dif else 0.0)}" ++
+    s!" cb {floatBits (g c.clo 0)} {floatBits (g c.clo 1)} {floatBits (g c.chi 0)} {floatBits (g c.chi 1)}" ++
+    s!" dt={floatBits c.dt} min={c.minSteps} max={c.maxSteps}"
+  let pth := match path with
+    | some p =>
+      let inside := match p.states.getLast? with
+        | some l => (goalT l).1
+        | none => false
+      s!" libcheck={if p.check step valid (closeF c.kind) then 1 else 0} insidegoal={if inside then 1 else 0} path {showPath c.dt p}"
+    | none => " libcheck=- insidegoal=- path none"
+  hd ++ pth
+
+def opEstPlay : P String := do
+  let c ← pSys
+  let boxes ← pEnv
+  expect "starts"
+  let ns ← pN
+  guardP (ns ≥ 1 && ns ≤ 16)
+  let starts ← pMany (pReals c.kind.nreals) ns
+  expect "goal"
+  let gk ← pGoalKind
+  let goal ← pReals c.kind.nreals
+  let thr ← pF
+  let cell ← pKVF "cell"
+  let bias ← pKVF "bias"
+  let lseed ← pKVNat "lseed"
+  guardP (cell > 1e-6 && bias ≥ 0 && bias ≤ 1 && lseed < 4294967296)
+  expect "draws"
+  let draws ← pEstDraws #[] c.kind.nreals
+  let valid := ControlSys.valid c eps boxes
+  let step := ControlSys.step c.kind c.dt
+  let goalT := goalTest gk 1.7976931348623157e308 goal thr
+  let P : CEST.Problem (Array F) (Array F) F (List Int) Rng.Rng :=
+    { step, valid, dist := ControlSys.dist c.kind, lt := fun a b => a < b, inf := 1.0 / 0.0,
+      goal := goalT, goalSample := goal, goalSampleable := gk == .pos, canSample := true, goalBias := bias,
+      nullControl := nullControl c, minSteps := c.minSteps,
+      -- computeCoordinates: floor(projection ./ cellSizes) cast to int
+      coordOf := fun s => [Num.toInt (Float.floor (g s 0 / cell)), Num.toInt (Float.floor (g s 1 / cell))],
+      wOne := 1.0, wInv := fun n => 1.0 / Float.ofNat n,
+      rng01 := fun r => r.uniform01,
+      rngInt := fun r hi => let x := r.uniformInt 0 (Int.ofNat hi); (x.1.toNat, x.2) }
+  let r := CEST.solve P (Rng.Rng.create lseed.toUInt64) starts draws.toList
+  let st := r.final
+  let nameOf := fun (m : Nat) =>
+    match st.cells.toList.find? (fun cl => cl.motions.contains m) with
+    | some cl => s!"{showCoord cl.coord} {(cl.motions.idxOf? m).getD 0}"
+    | none => "?"
+  let sorted := st.cells.toList.mergeSort fun a b => coordLe a.coord b.coord
+  let cells := String.join (sorted.map fun cl =>
+    s!" [{showCoord cl.coord} ; " ++ (match st.pdf.getWeight cl.elem with | some w => floatBits w | none => "?") ++
+      s!" ; {cl.motions.length}" ++
+      String.join (cl.motions.map fun mi =>
+        match st.tree[mi]? with
+        | none => " {?}"
+        | some m =>
+          " {" ++ s!"{showReals m.state} ; {showReals m.control} ; {m.steps} ; " ++
+            (match m.parent with | none => "-" | some p => nameOf p) ++ "}") ++ "]")
+  pure (solHead c r.status r.dif r.path goalT step valid ++
+    s!" | est size={st.tree.size} cells={st.cells.size} pdf={st.pdf.size}" ++ cells)
+
+/-! ### control KPIECE1 on recorded draws (planner RNG = `Model/Rng.lean`) -/
+
+partial def pKpDraws (acc : Array (CKPIECE.Draw (Array F))) : P (Array (CKPIECE.Draw (Array F))) := do
+  match (← get) with
+  | [] => pure acc
+  | _ =>
+    expect "C"
+    let u ← pReals 2
+    expect "K"
+    let k ← pN
+    guardP (k ≤ 100000)
+    pKpDraws (acc.push { control := u, steps := k })
+
+def fenc (x : Float) : Int := Int.ofNat x.toBits.toNat
+def fdec (i : Int) : Float := Float.ofBits i.toNat.toUInt64
+
+def opKpiecePlay : P String := do
+  let c ← pSys
+  let boxes ← pEnv
+  expect "starts"
+  let ns ← pN
+  guardP (ns ≥ 1 && ns ≤ 16)
+  let starts ← pMany (pReals c.kind.nreals) ns
+  expect "goal"
+  let gk ← pGoalKind
+  let goal ← pReals c.kind.nreals
+  let thr ← pF
+  let cell ← pKVF "cell"
+  let nclose ← pKVNat "nclose"
+  let bias ← pKVF "bias"
+  let bf ← pKVF "bf"
+  let good ← pKVF "good"
+  let bad ← pKVF "bad"
+  let lseed ← pKVNat "lseed"
+  guardP (cell > 1e-6 && bias ≥ 0 && bias ≤ 1 && lseed < 4294967296 && nclose ≤ 1000)
+  expect "draws"
+  let draws ← pKpDraws #[]
+  let valid := ControlSys.valid c eps boxes
+  let step := ControlSys.step c.kind c.dt
+  let goalT := goalTest gk 1.7976931348623157e308 goal thr
+  let Pb : CKPIECE.Problem (Array F) (Array F) F Rng.Rng :=
+    { P := { dim := 2, enc := fenc, dec := fdec, eps := Float.ofBits 0x3CB0000000000000 },
+      step, valid, inf := 1.0 / 0.0, goal := goalT, nullControl := nullControl c,
+      minSteps := c.minSteps, maxSteps := c.maxSteps,
+      coordOf := fun s => [Num.toInt (Float.floor (g s 0 / cell)), Num.toInt (Float.floor (g s 1 / cell))],
+      goalBias := bias, borderFraction := bf, goodScoreFactor := good, badScoreFactor := bad, nClose := nclose,
+      rng01 := fun r => r.uniform01,
+      rngHalf := fun r hi => let x := r.halfNormalInt 0 (Int.ofNat hi) 3.0; ((x.1.getD 0).toNat, x.2) }
+  let r := CKPIECE.solve Pb (Rng.Rng.create lseed.toUInt64) starts draws.toList
+  let st := r.final
+  let d := st.disc
+  let nameOf := fun (m : Nat) =>
+    match d.cdata.find? (fun e => e.2.motions.contains m) with
+    | some e => s!"{showCoord e.1} {(e.2.motions.idxOf? m).getD 0}"
+    | none => "?"
+  let sorted := d.grid.cells.mergeSort fun a b => coordLe a.coord b.coord
+  let cells := String.join (sorted.map fun gc =>
+    match Disc.lookup d.cdata gc.coord with
+    | none => " [?]"
+    | some cd =>
+      s!" [{showCoord gc.coord} ; {floatBits cd.coverage} ; {cd.selections} ; {floatBits cd.score} ; {cd.iteration} ; " ++
+        s!"{floatBits (fdec gc.data)} ; {gc.nbrs} ; {if gc.border then 1 else 0} ; {cd.motions.length}" ++
+        String.join (cd.motions.map fun mi =>
+          match st.tree[mi]? with
+          | none => " {?}"
+          | some m =>
+            " {" ++ s!"{showReals m.state} ; {showReals m.control} ; {m.steps} ; " ++
+              (match m.parent with | none => "-" | some p => nameOf p) ++ "}") ++ "]")
+  pure (solHead c r.status r.dif r.path goalT step valid ++
+    s!" | kpiece size={d.size} cells={d.grid.cells.length} iteration={d.iteration}" ++
+    s!" int={Grid.countInternal d.grid} ext={Grid.countExternal d.grid}" ++ cells)
+
 def init (ts : List String) : Option Unit :=
   match ts with
   | ["control"] => some ()
@@ -434,6 +606,8 @@ def step (_ : Unit) (ts : List String) : Unit × String :=
   | "replayok" :: rest => ((), runP opReplayOk rest)
   | "rrtplay" :: rest => ((), runP opRrtPlay rest)
   | "sstplay" :: rest => ((), runP opSstPlay rest)
+  | "estplay" :: rest => ((), runP opEstPlay rest)
+  | "kpieceplay" :: rest => ((), runP opKpiecePlay rest)
   | _ => ((), "bad-op")
 
 end OmplModel.Driver.ControlDrv
